@@ -38,6 +38,7 @@ type Config struct {
 	Concrete      map[string]uint64 // when non-nil: run one concrete path with these inputs
 	Tier          string
 	DropGo        map[string]bool // functions whose `go` statements are not modelled (background workers driven explicitly by the harness)
+	PanicOnly bool // assertions of the harness are ignored: only target panics count
 	KnownActive   map[string]bool // known-finding class ids that are active (status "known")
 }
 
@@ -247,6 +248,7 @@ func (in *Interp) resetPath(prefix []Decision, model map[string]uint64) {
 	in.reached = map[string]bool{}
 	in.observes = nil
 	in.clockLast = nil
+	in.clockHalf = nil
 	in.uuidSeq = 0
 	in.usedIntrinsics = map[string]bool{}
 	in.usedStubs = map[string]bool{}
@@ -976,6 +978,9 @@ func (in *Interp) knownNeg() []*term.Term {
 
 // assert checks an obligation on the current path.
 func (in *Interp) assert(c *term.Term, msg string) {
+	if in.cfg.PanicOnly {
+		return // this run only asks whether the code can panic
+	}
 	in.ex.mu.Lock()
 	in.ex.res.Asserts++
 	in.ex.mu.Unlock()
